@@ -51,7 +51,7 @@ func init() {
 	mut("C16", "DeleteManyResources ignores failures of the edge clean-up", wdag,
 		"		if err := d.deleteOutgoingRelationships(ctx, id); err != nil {\n			return err\n		}\n	}\n	return d.resourceTable.NewDelete().Where(gorp.MatchKeys[string, Resource](IDsToKeys(ids)...)).Exec(ctx, d.tx)", "		_ = d.deleteOutgoingRelationships(ctx, id)\n	}\n	return d.resourceTable.NewDelete().Where(gorp.MatchKeys[string, Resource](IDsToKeys(ids)...)).Exec(ctx, d.tx)", "C16.R2.edges")
 	mut("C16", "DefineRelationship skips the existence check of its endpoints", wdag,
-		"	if err := d.validateResourcesExist(ctx, from, to); err != nil {\n		return err\n	}\n	descendants, err := d.retrieveDescendants(ctx, to)", "	descendants, err := d.retrieveDescendants(ctx, to)", "C16.R3.create")
+		"	if err := d.validateResourcesExist(ctx, from, to); err != nil {\n		return err\n	}\n	// A resource related", "	// A resource related", "C16.R3.create")
 	mut("C16", "DefineRelationship validates only the source", wdag,
 		"	if err := d.validateResourcesExist(ctx, from, to); err != nil {", "	if err := d.validateResourcesExist(ctx, from); err != nil {", "C16.R3.create")
 	mut("C16", "cycle test looks at the descendants of the source", wdag,
@@ -161,4 +161,22 @@ func init() {
 		"				delete(addrMap, target)\n", "", "C07.R3.sender")
 	mut("C07", "validator inspects masked-out series", "core/pkg/distribution/framer/writer/validator.go",
 		"ShouldExcludeRaw(rawI)", "ShouldExcludeRaw(rawI+0*len(k.String()))", "C07.R4.mask")
+
+	// ---------------- C08.R5
+	mut("C08", "Uint64 accepts a short read", "x/go/binary/reader.go",
+		"	if _, err := io.ReadFull(r.r, r.buf[:8]); err != nil {", "	if _, err := r.r.Read(r.buf[:8]); err != nil {", "C08.R5.fullread")
+	mut("C08", "raw reads return after the first chunk", "x/go/binary/reader.go",
+		"	return io.ReadFull(r.r, data)", "	return io.ReadAtLeast(r.r, data, 1)", "C08.R5.fullread")
+
+	// ---------------- C07.R5
+	mut("C07", "a partial frame is sent only to the peers it has series for", "core/pkg/distribution/framer/writer/switch.go",
+		"		if rs.sync {\n			for nodeKey, addr := range rs.addresses {\n				if _, ok := frames[nodeKey]; !ok {\n					r.Frame = frame.Frame{}\n					oReqs[addr] = r\n				}\n			}\n		}\n", "		_ = frame.Frame{}\n", "C07.R5.broadcast")
+	mut("C07", "control commands go to the first peer only", "core/pkg/distribution/framer/writer/switch.go",
+		"		for _, addr := range rs.addresses {\n			oReqs[addr] = r\n		}", "		for _, addr := range rs.addresses {\n			oReqs[addr] = r\n			break\n		}", "C07.R5.broadcast")
+
+	// ---------------- C16.R3.self
+	mut("C16", "DefineRelationship accepts a self edge", "core/pkg/distribution/ontology/writer_dag.go",
+		"	if from == to {\n		return graph.ErrCyclicDependency\n	}\n", "", "C16.R3.self")
+	mut("C16", "one-to-many create skips a self edge instead of refusing it", "core/pkg/distribution/ontology/writer_dag.go",
+		"		if rel.To == from {\n			return graph.ErrCyclicDependency\n		}", "		if rel.To == from {\n			continue\n		}", "C16.R3.self")
 }
